@@ -307,6 +307,30 @@ theorem meta_rewritten_content_partial (m old e : PStr) (hm : MimeLike m) (hold 
   · rw [step]; simp
   · rw [step]; simp
 
+/-- **The rewrite is literal, for ANY name.** Whenever `CHARSET_RE` finds a declaration in the original `content` value,
+    the value rendered for a target name `e` — any code points whatsoever: leading digits (`866`, `1252`), backslashes,
+    `\g<1>`, `$1`, `%s` — contains `e` verbatim (a callback, not a regex template, does the replacement), and no code path
+    can raise. (`meta_rewritten_content_partial` above also quantifies over every `e`, and every old value.) -/
+theorem meta_rewritten_content_verbatim (e orig : PStr) (hp : isPythonSpecific e = false)
+    (hs : charsetReSearch true orig = true) : e <:+: substituteContent e orig := by
+  unfold substituteContent charsetReSub
+  simp only [hp, Bool.false_eq_true, if_false]
+  exact subGo_contains e orig true hs
+
+/-- … and a Python-specific target only ever removes text -/
+theorem meta_python_specific_only_removes (e orig : PStr) (hp : isPythonSpecific e = true) :
+    (substituteContent e orig).length ≤ orig.length := by
+  unfold substituteContent charsetReSub
+  simp only [hp, if_true]
+  exact subGo_empty_length orig 0 true
+
+example : substituteContent (ofS "866") (ofS "text/html; charset=utf8") = ofS "text/html; charset=866" := by decide
+example : substituteContent (ofS "437") (ofS "text/html\\1; x=\\2;charset=\\g<1>; y=$1") = ofS "text/html\\1; x=\\2;charset=437; y=$1" := by
+  decide
+example : substituteContent (ofS "latin\\1") (ofS "text/html; charset=utf8") = ofS "text/html; charset=latin\\1" := by decide
+example : substituteContent (ofS "\\g<1>$1%s{0}") (ofS "a; charset=\\1") = ofS "a; charset=\\g<1>$1%s{0}" := by decide
+example : charsetReSearch true (ofS "text/html; charset=utf8") = true := by decide
+
 example : MimeLike (ofS "text/html") := ⟨by decide, 116, ofS "ext/html", by decide, by decide, by decide⟩
 example : substituteContent (ofS "big5") (ofS "text/html" ++ ofS "; charset=" ++ ofS "utf8") = ofS "text/html; charset=big5" := by
   decide
